@@ -241,6 +241,50 @@ def tsan_reports(stderr, repo):
     return reps
 
 
+def stage_g(ctx):
+    """Regenerate lean/XzVerif/Gen/C07.lean from the source text: the protocol constants the model depends on."""
+    def rd(rel):
+        return open(os.path.join(vlib.REPO, rel)).read()
+    try:
+        dec = rd("src/liblzma/common/stream_decoder_mt.c")
+        oq = rd("src/liblzma/common/outqueue.c")
+        base = rd("src/liblzma/api/lzma/base.h")
+        common = rd("src/liblzma/common/common.h")
+        chunk = int(re.search(r"const size_t chunk_size = (\d+);", dec).group(1))
+        m = re.search(r"#define GET_BUFS_LIMIT\(threads\) \((\d+) \* \(threads\)\)", oq)
+        factor = int(m.group(1))
+
+        def enum_names(src, typename):
+            body = re.search(r"typedef enum \{([^{}]*)\}\s*" + typename + r"\s*;", src, re.S).group(1)
+            body = re.sub(r"/\*.*?\*/", "", body, flags=re.S)
+            body = re.sub(r"//[^\n]*", "", body)
+            return [t.strip().split("=")[0].strip() for t in body.split(",") if t.strip()]
+        wst = enum_names(dec, "worker_state")
+        pum = enum_names(dec, "partial_update_mode")
+        seqs = re.search(r"struct lzma_stream_coder \{\s*enum \{(.*?)\} sequence;", dec, re.S).group(1)
+        seqs = [t.strip() for t in re.sub(r"//[^\n]*", "", seqs).split(",") if t.strip()]
+        rets = dict((k, int(v)) for k, v in re.findall(r"^\s*(LZMA_[A-Z_0-9]+)\s*=\s*(\d+),", base, re.M))
+        internal = re.search(r"#define LZMA_TIMED_OUT (LZMA_RET_INTERNAL\d)", common).group(1)
+        body = ("/- REGENERATED by tools/props/c07.py (stage G) from src/liblzma/common/stream_decoder_mt.c, outqueue.c, common.h and\n"
+                "   api/lzma/base.h. Do not edit. Bridged to Model/MtDec.lean by `decide` theorems in Props/C07.lean. -/\n"
+                "namespace XzVerif.Gen.C07\n\n"
+                "def chunkSize : Nat := %d\n"
+                "def bufsLimitFactor : Nat := %d\n"
+                "def workerStates : List String := %s\n"
+                "def partialUpdateModes : List String := %s\n"
+                "def sequences : List String := %s\n"
+                "def retOK : Nat := %d\ndef retStreamEnd : Nat := %d\ndef retDataError : Nat := %d\ndef retProgError : Nat := %d\n"
+                "def retMemlimitError : Nat := %d\ndef retTimedOut : Nat := %d\n\n"
+                "end XzVerif.Gen.C07\n") % (
+            chunk, factor, json.dumps(wst), json.dumps(pum), json.dumps(seqs), rets["LZMA_OK"], rets["LZMA_STREAM_END"],
+            rets["LZMA_DATA_ERROR"], rets["LZMA_PROG_ERROR"], rets["LZMA_MEMLIMIT_ERROR"], rets[internal])
+    except Exception as ex:
+        ctx.obligation_broken("stage G: the protocol constants cannot be extracted from stream_decoder_mt.c / outqueue.c", repr(ex))
+        return False
+    vlib.write_if_changed(vlib.module_path("XzVerif.Gen.C07"), body)
+    return True
+
+
 def run(ctx):
     quick = ctx.quick()
     rng = ctx.rng
@@ -256,11 +300,13 @@ def run(ctx):
         "the block decoder is deterministic and slicing independent (C06), so the single-threaded decoder on the same bytes is the reference",
         "C side samples schedules (seeded); the universally quantified statements are the Lean theorems about Model/MtDec.lean",
     ]
+    # ---- G
+    g_ok = stage_g(ctx)
     # ---- P
     p_ok = True
     have_lean = os.path.exists(vlib.module_path("XzVerif.Props.C07"))
     if have_lean:
-        p_ok = ctx.lean_stage(["XzVerif.Props.C07"], exes=["xzm_c07"])
+        p_ok = ctx.lean_stage(["XzVerif.Props.C07"], exes=["xzm_c07"]) and g_ok
     else:
         ctx.obligation_broken("stage P: lean/XzVerif/Props/C07.lean is missing", "")
         p_ok = False
